@@ -96,6 +96,19 @@ func (ev *evaluator) call(n *Node, cur V, env *Env) (V, *Fault) {
 		args[i] = v
 	}
 	if ff != nil {
+		if name == "not_null" && ff.Cats&CatUnspec == 0 {
+			// whether arguments after the first non-null one are evaluated at
+			// all is not pinned
+			for i, k := range n.Kids {
+				_, f := ev.eval(k, cur, env)
+				if f != nil {
+					break
+				}
+				if args[i] != nil {
+					return nil, unspec("not_null: fault in an argument after the first non-null one")
+				}
+			}
+		}
 		return nil, ff
 	}
 	return ev.apply(name, args)
@@ -111,6 +124,9 @@ func asInt(fn string, i int, v V) (*big.Int, *Fault) {
 	}
 	if !x.R.IsInt() {
 		return nil, fault(CatValue, "%s: argument %d is not an integer", fn, i+1)
+	}
+	if n := x.R.Num(); n.Cmp(minInt64) < 0 || n.Cmp(maxInt64) > 0 {
+		return nil, unspec("%s: integer argument beyond 64 bits", fn)
 	}
 	return new(big.Int).Set(x.R.Num()), nil
 }
